@@ -89,7 +89,19 @@ def genConcatCase : G (List String) := do
   pure [s!"P {o} a:{all};" ++ ";".intercalate (pics.map fun _ => "n"),
         s!"P {o} " ++ ";".intercalate (pics.map fun p => s!"r:{hexOf p}")]
 
+/-- all 31 x 4 quantizer updates: 16x16 Sorenson I pictures whose single INTRA+Q macroblock carries one level-5
+coefficient in block Y1 and a second macroblock-free tail (the observation route of C11) -/
+def dquantCases : List String :=
+  (List.range 31).flatMap fun q0 => [(-2 : Int), -1, 1, 2].flatMap fun dq => [0, 1].map fun v =>
+    let blk : BlockD := { dc := some 100, events := [{ run := 0, level := 5, form := if v = 0 then .esc8 else .esc7 }] }
+    let blank : BlockD := { dc := some 128 |>.map (fun _ => 64), events := [] }
+    let mb : MbD := { stuffing := 0, kind := .coded .intraQ dq (0, 0) ((0, 0), (0, 0), (0, 0)) [blk, blank, blank, blank, blank, blank] }
+    let p : PicD := { hdr := .sorenson { version := v, tr := q0, sizeCode := 0, customW := 16, customH := 16, picType := 0,
+                                         deblock := false, quant := q0 + 1, extra := [] }, mbs := [mb] }
+    s!"P 1 d:{hexOf p}"
+
 def runGen (kind : String) (seed count : Nat) : List String :=
+  if kind == "dquant" then dquantCases else
   let g : G (List String) := do
     let mut out : List String := []
     for _ in [0:count] do
